@@ -41,6 +41,24 @@ def one_case(rng):
     img, _ = sections_image(cls, le, [dict(name='.relr.dyn', type=19, data=data, entsize=cls // 8, align=8, flags=2)])
     sec = ELFFile(io.BytesIO(img)).get_section_by_name('.relr.dyn')
     cfg = 'class %d le=%s words=%s' % (cls, le, data.hex())
+    # histories on a fresh table object: the expansion is memoised, and what a lookup by index or the count answers must
+    # not depend on which of them was asked first (a lookup before the first count; decreasing and increasing indices)
+    if want:
+        h = ELFFile(io.BytesIO(img)).get_section_by_name('.relr.dyn')
+        done = []
+        for _q in range(rng.choice([1, 2, 3])):
+            if rng.random() < 0.7:
+                k = rng.randrange(-len(want), len(want))
+                done.append('get_relocation(%d)' % k)
+                got = h.get_relocation(k)['r_offset']
+                if got != want[k]:
+                    return ('after %s on a fresh table: address %s, the stream denotes %s' % (', '.join(done), hex(got), hex(want[k])), cfg, img.hex())
+            else:
+                done.append('num_relocations()')
+                if h.num_relocations() != len(want):
+                    return ('after %s on a fresh table: count %d, the stream denotes %d' % (', '.join(done), h.num_relocations(), len(want)), cfg, img.hex())
+        if h.num_relocations() != len(want):
+            return ('after %s on a fresh table: num_relocations() = %d, the stream denotes %d' % (', '.join(done), h.num_relocations(), len(want)), cfg, img.hex())
     for attempt in range(2):
         got = [r['r_offset'] for r in sec.iter_relocations()]
         if got != want:
@@ -70,5 +88,5 @@ def relr(tier, seed):
     obs = [dict(name='bounded:elf/relocation.py:RELR expansion', kind='bounded', verdict='refuted' if bad else 'proved',
                 backend='ground-eval(seeded differential, %d streams)' % n, time=0.0, bounded=True, detail=bad and bad['observed'], native=bad)]
     return dict(obligations=obs, assumptions=['BOUNDED: streams of 0-24 words'],
-                functions=[dict(function='elftools/elf/relocation.py:RelrRelocationTable.iter_relocations/num_relocations (end to end)',
+                functions=[dict(function='elftools/elf/relocation.py:RelrRelocationTable.iter_relocations/num_relocations/get_relocation (end to end, query histories on fresh objects)',
                                 kind='bounded differential')], exhaustive=False)
